@@ -39,6 +39,7 @@ type StreamDecoder struct {
 	scanp   int
 	scanned int64
 	err     error
+	rerr    error // error returned by the underlying reader (io.EOF included); no more reads after it
 	Decoder
 }
 
@@ -49,7 +50,7 @@ var bufPool = sync.Pool{
 }
 
 func freeBytes(buf []byte) {
-	if rt.CanSizeResue(cap(buf)) {
+	if cap(buf) > 0 && rt.CanSizeResue(cap(buf)) {
 		bufPool.Put(buf[:0])
 	}
 }
@@ -78,24 +79,35 @@ func (self *StreamDecoder) Decode(val interface{}) (err error) {
 		var src = rt.Mem2Str(self.buf[s:e])
 		// try skip
 		var x = 0
-		if y := native.SkipOneFast(&src, &x); y < 0 {
+		y := native.SkipOneFast(&src, &x)
+		// a number or literal that reaches the end of the buffer may continue in the next read
+		open := y >= 0 && x == len(src) && src[y] != '"' && src[y] != '[' && src[y] != '{'
+		if open || (y < 0 && types.ParsingError(-y) == types.ERR_EOF) {
 			if self.readMore() {
 				goto try_skip
 			}
-			if self.err == nil {
-				self.err = SyntaxError{e, self.s, types.ParsingError(-s), ""}
-				self.setErr(self.err)
+			// the reader is exhausted or has failed
+			if y < 0 && self.rerr != io.EOF {
+				self.setErr(self.rerr)
+				return self.err
 			}
-			return self.err
-		} else {
-			e = x + s
-			s = y + s
 		}
+		if y < 0 {
+			// malformed or truncated data is a syntax error, not the end of the stream
+			self.setErr(SyntaxError{x, string(self.buf[s:e]), types.ParsingError(-y), ""})
+			return self.err
+		}
+		e = x + s
+		s = y + s
 
 		// must copy string here for safety
 		self.Decoder.Reset(string(self.buf[s:e]))
 		err = self.Decoder.Decode(val)
 		if err != nil {
+			if open && self.rerr != io.EOF {
+				// the reader failed before the value was complete
+				err = self.rerr
+			}
 			self.setErr(err)
 			return
 		}
@@ -143,32 +155,29 @@ func (self *StreamDecoder) More() bool {
 	return err == nil && c != ']' && c != '}'
 }
 
-// More reports whether there is another element in the
-// current array or object being parsed.
+// readMore reads more data from the underlying reader into buf and reports whether any byte
+// was added. An error from the reader (io.EOF included) is remembered in self.rerr: it is not
+// a decoding error by itself, the caller decides whether the buffered data is complete.
 func (self *StreamDecoder) readMore() bool {
-	if self.err != nil {
+	if self.err != nil || self.rerr != nil {
 		return false
 	}
 
-	var err error
-	var n int
 	for {
 		// Grow buffer if not large enough.
 		l := len(self.buf)
 		realloc(&self.buf)
 
-		n, err = self.r.Read(self.buf[l:cap(self.buf)])
+		n, err := self.r.Read(self.buf[l:cap(self.buf)])
 		self.buf = self.buf[:l+n]
 
-		self.scanp = l
-		_, empty := self.scan()
-		if !empty {
+		if err != nil {
+			self.rerr = err
+		}
+		if n > 0 {
 			return true
 		}
-
-		// buffer has been scanned, now report any error
 		if err != nil {
-			self.setErr(err)
 			return false
 		}
 	}
@@ -219,12 +228,20 @@ func (self *StreamDecoder) refill() error {
 		self.scanp = 0
 	}
 
+	// The reader has already reported an error: do not read again.
+	if self.rerr != nil {
+		return self.rerr
+	}
+
 	// Grow buffer if not large enough.
 	realloc(&self.buf)
 
 	// Read. Delay error for next iteration (after scan).
 	n, err := self.r.Read(self.buf[len(self.buf):cap(self.buf)])
 	self.buf = self.buf[0 : len(self.buf)+n]
+	if err != nil {
+		self.rerr = err
+	}
 
 	return err
 }
